@@ -1500,7 +1500,9 @@ func (ex *Exec) feasible(cond *Term) bool {
 	prelude, _, _ := ex.vc.W.PreludeFor(ex.top.pkg)
 	script := ScriptFor(prelude, top.pruneAssumes, Not(cond), false)
 	script = strings.Replace(script, "(get-model)\n", "", 1)
-	sts, out, _ := RunBatch(script, filepath.Join(smtOutDir, "prune"), fmt.Sprintf("q%d_%d", os.Getpid(), top.pruneQueries), 5, "z3-5")
+	qname := fmt.Sprintf("q%d_%d", os.Getpid(), top.pruneQueries)
+	sts, out, _ := RunBatch(script, filepath.Join(smtOutDir, "prune"), qname, 5, "z3-5")
+	os.Remove(filepath.Join(smtOutDir, "prune", qname+".smt2"))
 	res := true
 	if len(sts) == 1 && sts[0] == "unsat" && !errorBeforeStatus(out) {
 		res = false
